@@ -799,6 +799,19 @@ func (g *SpecGen) defaultSpec(depth int, c *genCtx) *SNode {
 			prim.Spec.(*hcldec.AttrSpec).Required = false
 		}
 	}
+	if prim.Kind != KAttr && r.Chance(1, 2) {
+		// a same-body wrapper between the default and the block spec: the default is "block-like" for
+		// everything that looks for nested specs, and still has to pass its same-body children on
+		switch r.Intn(3) {
+		case 0:
+			prim = g.validate(prim)
+		case 1:
+			prim = g.transformFunc(prim)
+		default:
+			prim = g.refine(prim)
+		}
+		g.count("spec:default-over-wrapped-block")
+	}
 	t := prim.Implied()
 	var def *SNode
 	concrete := !t.HasDynamicTypes() && t.Equals(t.WithoutOptionalAttributesDeep())
